@@ -473,6 +473,42 @@ theorem triGridBary_simplex (n : Nat) (l1 l3 : K) (topup : List (K × K))
       exact triMirror_simplex c.1 c.2 hc'.1 hc'.2.1 hc'.2.2.1 hc'.2.2.2
   · exact mesh b (List.mem_of_mem_take hb)
 
+/-- every grid pair the code can return is one of the pool's candidates, and every candidate lies in the simplex:
+    the row order of the mesh (which decides WHICH n nodes survive the first-n cut) is irrelevant for membership -/
+theorem triGridBary_sub_pool (n : Nat) (l1 l3 : K) (topup : List (K × K)) :
+    ∀ b ∈ triGridBary n l1 l3 topup, b ∈ triGridPoolBary n l1 l3 topup := by
+  intro b hb
+  unfold triGridBary at hb
+  unfold triGridPoolBary
+  simp only at hb ⊢
+  split at hb
+  · rw [List.mem_append] at hb ⊢
+    rcases hb with hb | hb
+    · exact Or.inl hb
+    · right
+      rw [List.mem_map] at hb ⊢
+      obtain ⟨c, hc, rfl⟩ := hb
+      exact ⟨c, List.mem_of_mem_take hc, rfl⟩
+  · exact List.mem_append_left _ (List.mem_of_mem_take hb)
+
+theorem triGridPoolBary_simplex (n : Nat) (l1 l3 : K) (topup : List (K × K))
+    (ht : ∀ b ∈ topup, 0 ≤ b.1 ∧ b.1 ≤ 1 ∧ 0 ≤ b.2 ∧ b.2 ≤ 1) :
+    ∀ b ∈ triGridPoolBary n l1 l3 topup, 0 ≤ b.1 ∧ 0 ≤ b.2 ∧ b.1 + b.2 ≤ 1 := by
+  intro b hb
+  unfold triGridPoolBary at hb
+  simp only at hb
+  rw [List.mem_append] at hb
+  rcases hb with hb | hb
+  · rw [List.mem_filter, List.mem_map] at hb
+    obtain ⟨⟨idx, hi, rfl⟩, hle⟩ := hb
+    have u := baryGrid_unit (K := K) _ _ idx (List.mem_range.1 hi)
+    rw [le_iff] at hle
+    exact ⟨u.1, u.2.2.1, hle⟩
+  · rw [List.mem_map] at hb
+    obtain ⟨c, hc, rfl⟩ := hb
+    have hc' := ht c hc
+    exact triMirror_simplex c.1 c.2 hc'.1 hc'.2.1 hc'.2.2.1 hc'.2.2.2
+
 end
 end TPV.Geom
 
